@@ -180,6 +180,14 @@ func (h *Handler) Handle(down *layer4.Connection, _ layer4.Handler) error {
 			continue
 		}
 
+		// count the connection against the upstream's peers for as long as it is
+		// proxied; without this max_connections (and unhealthy_connection_count)
+		// never take effect and least_conn sees no load
+		for _, p := range upstream.peers {
+			_ = p.countConn(1)
+			defer func(p *peer) { _ = p.countConn(-1) }(p)
+		}
+
 		break
 	}
 
